@@ -1432,7 +1432,8 @@ impl<Word, Buf: SafeBuf<Word> + AsMut<[Word]>> BoundedWriteWords<Word>
 {
     #[inline(always)]
     fn space_left(&self) -> usize {
-        self.0.buf.as_ref().len()
+        // A reversed cursor writes towards the beginning of the buffer.
+        self.0.pos
     }
 }
 
